@@ -73,10 +73,11 @@ type Gen struct {
 	ots   uint32
 	tok   uint32
 	stats map[string]int
+	lastPose map[[2]uint32]Pose
 }
 
 func NewGen(seed uint64, e *Env, p *Profile, stats map[string]int) *Gen {
-	return &Gen{r: &rng{seed}, e: e, p: p, sess: map[uint32]*shadowSession{}, rid: 0, ots: 0, tok: 0, stats: stats}
+	return &Gen{r: &rng{seed}, e: e, p: p, sess: map[uint32]*shadowSession{}, rid: 0, ots: 0, tok: 0, stats: stats, lastPose: map[[2]uint32]Pose{}}
 }
 
 func (g *Gen) nextRid() uint32 { g.rid++; return g.rid }
@@ -228,11 +229,17 @@ func (g *Gen) typeFor(c *shadowConn) uint32 {
 }
 
 func (g *Gen) pose(seq uint32) Pose {
-	pats := []uint32{0, 0x3f800000, 0xbf800000, 0x7fc00000, 0x7f800000, 0xff800000, 0x80000000, 0x00000001, 0x42280000}
+	clean := []uint32{0, 0x3f800000, 0xbf800000, 0x42280000, 0x40000000, 0x3f000000}
+	exotic := []uint32{0x7fc00000, 0x7f800000, 0xff800000, 0x80000000, 0x00000001}
 	var p Pose
 	p[0] = seq // px carries a sequence number (a denormal / small float bit pattern)
+	wild := g.r.chance(25) // a quarter of the poses carry NaN / Inf / -0 / denormals
 	for i := 1; i < 7; i++ {
-		p[i] = pats[g.r.intn(len(pats))]
+		if wild && g.r.chance(50) {
+			p[i] = exotic[g.r.intn(len(exotic))]
+		} else {
+			p[i] = clean[g.r.intn(len(clean))]
+		}
 	}
 	return p
 }
@@ -535,6 +542,14 @@ func (g *Gen) one() {
 		r := &Req{Kind: 14, Ots: g.nextOts(), A: g.entityFor(c, 70), HasPose: !g.r.chance(4)}
 		if r.HasPose {
 			r.Pose = g.pose(r.Ots)
+			// sometimes the entity does not move: the same pose as last time, or the all-zero pose
+			if last, ok := g.lastPose[[2]uint32{c.sid, r.A}]; ok && g.r.chance(25) {
+				r.Pose = last
+				g.count("pose:repeated")
+			} else if g.r.chance(3) {
+				r.Pose = Pose{}
+			}
+			g.lastPose[[2]uint32{c.sid, r.A}] = r.Pose
 		}
 		g.send(c, r, "pose")
 	case "custom":
